@@ -444,13 +444,34 @@ def _child(spec: dict) -> dict:  # noqa: C901, PLR0915, PLR0912
             log.append({"site": "step", "n": n, "kind": kind, "t": time.monotonic()})
             if kind == "keys":
                 os.write(master, arg.encode("latin-1"))
-                wait_for(lambda i0=i0: settled(i0, "filter"), STEP_WAIT)
+                ok = wait_for(lambda i0=i0: settled(i0, "filter"), STEP_WAIT)
+                log.append({"site": "settled", "n": n, "ok": bool(ok)})
             elif kind == "winch":
                 c2, r2 = arg
                 cur["size"] = [c2, r2]
                 fcntl.ioctl(slave, termios.TIOCSWINSZ, struct.pack("HHHH", r2, c2, 0, 0))
+                log.append({"site": "resized", "size": [c2, r2], "t": time.monotonic()})
                 os.kill(os.getpid(), signal.SIGWINCH)
-                wait_for(lambda i0=i0: settled(i0, "filter"), STEP_WAIT)
+                ok = wait_for(lambda i0=i0: settled(i0, "filter"), STEP_WAIT)
+                log.append({"site": "settled", "n": n, "ok": bool(ok)})
+            elif kind == "burst":
+                # a burst of resizes (the terminal really changes size each time), then a key written WITHOUT waiting for
+                # the redraw: arg = {"sizes": [[c, r], ...], "key": bytes, "gap": seconds between the last resize and the key}
+                for j, (c2, r2) in enumerate(arg["sizes"]):
+                    i1 = len(log)
+                    cur["size"] = [c2, r2]
+                    fcntl.ioctl(slave, termios.TIOCSWINSZ, struct.pack("HHHH", r2, c2, 0, 0))
+                    log.append({"site": "resized", "size": [c2, r2], "t": time.monotonic()})
+                    os.kill(os.getpid(), signal.SIGWINCH)
+                    if j == 0:
+                        # the first resize is taken by the loop on its own (its get_input() returns just the resize)
+                        wait_for(lambda i1=i1: seen_after(i1, "filter") is not None, STEP_WAIT)
+                    else:
+                        time.sleep(float(arg.get("gap", 0.03)))
+                os.write(master, arg["key"].encode("latin-1"))
+                log.append({"site": "burst_key_written", "n": n, "t": time.monotonic()})
+                ok = wait_for(lambda i0=len(log): settled(i0, "filter"), STEP_WAIT + 0.4)
+                log.append({"site": "settled", "n": n, "ok": bool(ok)})
             elif kind == "pipe" and pipe_wr is not None:
                 os.write(pipe_wr, arg.encode("latin-1"))
                 wait_for(lambda i0=i0: settled(i0, "pipe"), STEP_WAIT)
@@ -480,9 +501,38 @@ def _child(spec: dict) -> dict:  # noqa: C901, PLR0915, PLR0912
     def tcj(t):
         return [t[0], t[1], t[2], t[3], t[4], t[5], [c.decode("latin-1") if isinstance(c, bytes) else c for c in t[6]]]
 
+    STTY = {
+        # name -> (field, bits to clear, bits to set) or ("cc", index, value)
+        "-ixon": (0, termios.IXON, 0),
+        "ixoff": (0, 0, termios.IXOFF),
+        "-icrnl": (0, termios.ICRNL, 0),
+        "-echoe": (3, termios.ECHOE, 0),
+        "-echok": (3, termios.ECHOK, 0),
+        "erase=^H": ("cc", termios.VERASE, b"\x08"),
+        "kill=^X": ("cc", termios.VKILL, b"\x18"),
+        "eof=^E": ("cc", termios.VEOF, b"\x05"),
+        "intr=^X": ("cc", termios.VINTR, b"\x18"),
+        "quit=^T": ("cc", termios.VQUIT, b"\x14"),
+        "start=^W": ("cc", termios.VSTART, b"\x17"),
+        "stop=^Y": ("cc", termios.VSTOP, b"\x19"),
+        "susp=^B": ("cc", termios.VSUSP, b"\x02"),
+    }
+
+    def stty(names) -> None:
+        """what `stty ...` run by the user between two sessions does to the terminal"""
+        t = termios.tcgetattr(slave)
+        for name in names:
+            spec_ = STTY[name]
+            if spec_[0] == "cc":
+                t[6][spec_[1]] = spec_[2]
+            else:
+                t[spec_[0]] = (t[spec_[0]] & ~spec_[1]) | spec_[2]
+        termios.tcsetattr(slave, termios.TCSANOW, t)
+
     def one_run(index: int, t0: float) -> dict:
         """MainLoop.run() once, with its own driver thread; -> what was observed when it ended"""
         inject = cur["inject"]
+        tc_before = termios.tcgetattr(slave)  # the settings THIS run begins with
         size0 = list(cur["size"])
         master_lo = len(seen)
         st["finished"] = False
@@ -532,6 +582,7 @@ def _child(spec: dict) -> dict:  # noqa: C901, PLR0915, PLR0912
             "outcome": outcome,
             "master_lo": master_lo,
             "master_hi": len(seen),
+            "termios_before": tcj(tc_before),
             "termios_after": tcj(tc_after),
             "termios_equal": tc_before == tc_after,
             "signals": {n: {"same": sig_after[n] is sig_before[n] or sig_after[n] == sig_before[n], "before": repr(sig_before[n])[:80], "after": repr(sig_after[n])[:80]} for n in watched},
@@ -557,6 +608,9 @@ def _child(spec: dict) -> dict:  # noqa: C901, PLR0915, PLR0912
         del alarm_handles[:]
         for k in counts:
             counts[k] = 0
+        if more.get("stty"):
+            stty(more["stty"])
+            log.append({"site": "stty", "names": list(more["stty"])})
         cur.update(inject=more.get("inject"), script=more.get("script", []), lo=len(log))
         log.append({"site": "run_start", "run": index, "t": time.monotonic()})
         t0 = set_alarms(more.get("alarms", [0.07]))
